@@ -1,5 +1,5 @@
 (* C13 — keys, pastes and mouse events forwarded into the embedded terminal arrive intact.
-   Statements only; proofs live in proofs/TermKeysProofs.v.
+   Statements only; proofs live in proofs/TermKeysProofs.v, TermKeysChild.v, TermKeysTie.v, TermHistProofs.v.
 
    Vocabulary (model/TermKeys.v, model/TermMouse.v):
      term_update u md e   the BYTES widgets/term's Model.Update writes to the child for the event e when the
@@ -21,7 +21,8 @@
    [seg [r] = [[r]]] (one code point is one cluster). *)
 From Vx Require model.Term.
 From Vx Require Import base.Prelude gen.GenKeys gen.GenTermKeys model.Keys model.ParserTypes model.Parser
-  model.TermMouse model.TermKeys proofs.TermKeysProofs proofs.TermKeysChild proofs.TermKeysTie.
+  model.TermMouse model.TermKeys model.TermHist proofs.TermKeysProofs proofs.TermKeysChild proofs.TermKeysTie
+  proofs.TermHistProofs.
 Local Open Scope Z_scope.
 
 (* ---------- keys ---------- *)
@@ -245,6 +246,121 @@ Theorem C13_modes_tie_emulator_ris : forall (t t' : Term.term) (md : tmodes),
 Proof. exact modes_tie_ris. Qed.
 Print Assumptions C13_modes_tie_emulator_ris.
 
+(* ---------- histories: ONE embedded terminal, many steps ---------- *)
+(* Vocabulary (model/TermHist.v):
+     hstep                     one step in the life of one Model: SOut its = the child wrote something (the parsed
+                               sequences, each through Model.update), SEv e = the host called Model.Update(e);
+     hist_run u md h           the history h from the state md: the byte strings written to the PTY, one per
+                               forwarded event, in order, and the final state (None = decset/decrst panicked);
+     child_output h            everything the child wrote in h; count_events h = the number of events in h;
+     hist_spec u md0 rs h      the same list computed with NO state but the requests the child has made so far;
+     hobs / hist_violation     what the harness observes of one real Model, and the history predicate it evaluates:
+                               every moment satisfies the one-event predicates under the modes the child had ASKED
+                               for at that moment, and two moments with the same event and the same relevant modes
+                               were answered with the same bytes;
+     model_obs u seg md h      the model's own observation of the history h. *)
+
+(* hist_no_memory.  Every interleaving of child output — DECSET / DECRST of any modes (1, 66, 1000, 1002, 1003, 1006,
+   1007, 1049, 2004 ...) in any parameter lists, keypad switches, RIS, anything else — and forwarded key / paste /
+   mouse events on ONE emulator: what is written for each event is what its encoder writes under the child's last
+   word on each mode at that moment.  No memory of earlier events, of earlier values of a mode, of what was written. *)
+Theorem C13_hist_no_memory : forall (u : uni) (h : list hstep) (md0 : tmodes) (rs : list creq) (outs : list (list Z)) (md' : tmodes),
+  hist_run u (asked_from md0 rs) h = Some (outs, md') ->
+  outs = hist_spec u md0 rs h /\ md' = asked_from md0 (rs ++ reqs_of (child_output h)).
+Proof. exact hist_run_spec. Qed.
+Print Assumptions C13_hist_no_memory.
+
+(* ... pointwise: the event after the prefix h1, from a fresh emulator *)
+Theorem C13_hist_event_output : forall (u : uni) (h1 : list hstep) (e : tevent) (h2 : list hstep) (outs : list (list Z)) (md' : tmodes),
+  hist_run u modes0 (h1 ++ SEv e :: h2) = Some (outs, md') ->
+  nth (count_events h1) outs [] = term_update u (asked (reqs_of (child_output h1))) e.
+Proof. exact hist_event_output. Qed.
+Print Assumptions C13_hist_event_output.
+
+(* events leave no trace: taking an event out of a history changes neither what is written for the other events nor
+   the final state; the state after a history is the state after the child's output alone *)
+Theorem C13_hist_event_erasable : forall (u : uni) (md : tmodes) (h1 : list hstep) (e : tevent) (h2 : list hstep)
+    (outs : list (list Z)) (md' : tmodes),
+  hist_run u md (h1 ++ SEv e :: h2) = Some (outs, md') ->
+  exists o1 o2 md1, hist_run u md h1 = Some (o1, md1) /\
+                    hist_run u md (h1 ++ h2) = Some (o1 ++ o2, md') /\
+                    outs = o1 ++ term_update u md1 e :: o2.
+Proof. exact hist_event_erasable. Qed.
+Print Assumptions C13_hist_event_erasable.
+
+Theorem C13_hist_state_is_childs : forall (u : uni) (h : list hstep) (md : tmodes) (outs : list (list Z)) (md' : tmodes),
+  hist_run u md h = Some (outs, md') ->
+  hist_run u md (drop_events h) = Some ([], md') /\ child_items (child_output h) md = Some md'.
+Proof. intros u h md outs md' H. split; [exact (hist_state_is_childs u h md outs md' H)|exact (hist_run_state u h md outs md' H)]. Qed.
+Print Assumptions C13_hist_state_is_childs.
+
+(* a history panics only where the child's output does (never on parameters as the parser delivers them) *)
+Theorem C13_hist_total : forall (u : uni) (h : list hstep) (md : tmodes),
+  Forall params_ok (child_output h) -> exists outs md', hist_run u md h = Some (outs, md').
+Proof. exact hist_run_total. Qed.
+Print Assumptions C13_hist_total.
+
+(* of the modes only those the clause names matter: DECCKM / DECKPAM for a key, 2004 for a paste boundary, the
+   tracking modes, 1006 and alternate scroll (1007, 1049) for a mouse event *)
+Theorem C13_relevant_modes_only : forall (u : uni) (e : tevent) (a b : tmodes),
+  relevant_eqb e a b = true -> term_update u a e = term_update u b e.
+Proof. exact relevant_update. Qed.
+Print Assumptions C13_relevant_modes_only.
+
+(* hist_nothing_unless_enabled.  At any moment of any history: nothing is written for a paste boundary when the
+   child's last word on 2004 is "off" — however often it had it on, whatever was forwarded before — and nothing for
+   a mouse event it has not enabled at that moment (alternate scroll aside, specified exactly). *)
+Theorem C13_hist_nothing_unless_enabled : forall (u : uni) (h1 : list hstep) (e : tevent) (h2 : list hstep)
+    (outs : list (list Z)) (md' : tmodes),
+  hist_run u modes0 (h1 ++ SEv e :: h2) = Some (outs, md') ->
+  let rs := reqs_of (child_output h1) in
+  (last_word [2004] rs false = false -> (e = TPasteStart \/ e = TPasteEnd) -> nth (count_events h1) outs [] = []) /\
+  (forall m, e = TMouse m -> is_click m || (ms_type m =? EventMotion) = true -> mouse_enabled (asked rs) m = false ->
+     nth (count_events h1) outs [] =
+       if altscroll_applies (asked rs) m
+       then (if ms_button m =? MouseWheelUp then ss3_up ++ ss3_up ++ ss3_up else ss3_down ++ ss3_down ++ ss3_down)
+       else []).
+Proof. exact hist_nothing_unless_enabled. Qed.
+Print Assumptions C13_hist_nothing_unless_enabled.
+
+(* hist_forwarded_arrives.  At any moment of any history: what the child has enabled at that moment arrives — the
+   paste brackets, SGR mouse reports, every xterm-expressible chord — and the cursor keys follow DECCKM as it
+   stands at that moment. *)
+Theorem C13_hist_forwarded_arrives : forall (u : uni) (seg : list Z -> list (list Z)) (h1 : list hstep) (e : tevent)
+    (h2 : list hstep) (outs : list (list Z)) (md' : tmodes),
+  (forall r, seg [r] = [[r]]) -> oracle_ok u ->
+  hist_run u modes0 (h1 ++ SEv e :: h2) = Some (outs, md') ->
+  let rs := reqs_of (child_output h1) in
+  let got := host_read u seg (nth (count_events h1) outs []) in
+  (last_word [2004] rs false = true -> (e = TPasteStart -> got = [HPasteStart]) /\ (e = TPasteEnd -> got = [HPasteEnd])) /\
+  (forall m, e = TMouse m -> m_sgr (asked rs) = true -> mouse_enabled (asked rs) m = true ->
+     button_ok (ms_button m) = true -> in_i63 (ms_col m) = true -> in_i63 (ms_row m) = true ->
+     got = [HMouse (mkMouse (ms_button m) (ms_row m) (ms_col m) (ms_type m) 0)]) /\
+  (forall k, e = TKey k -> xterm_expressible u k = true -> roundtrip_ok u k got = true) /\
+  (forall k x, e = TKey k -> xterm_mods (k_mods k) = 0 -> lookup1 cursor_finals (k_code k) = Some x ->
+     nth (count_events h1) outs [] = [27; (if last_word [1] rs false then 79 else 91); x]).
+Proof. exact hist_forwarded_arrives. Qed.
+Print Assumptions C13_hist_forwarded_arrives.
+
+(* the model satisfies the predicates the harness evaluates on observations: one event ... *)
+Theorem C13_model_satisfies_event_predicates : forall (u : uni) (seg : list Z -> list (list Z)) (md : tmodes),
+  (forall r, seg [r] = [[r]]) -> oracle_ok u ->
+  (forall k, key_violation u k md (term_update u md (TKey k)) (Some (forward u seg md (TKey k))) = false) /\
+  (forall e, (forall k, e <> TKey k) -> event_violation md e (term_update u md e) (Some (forward u seg md e)) = false).
+Proof.
+  intros u seg md Hseg Ho. split; [intros k; apply key_violation_model; assumption|intros e He; apply event_violation_model; exact He].
+Qed.
+Print Assumptions C13_model_satisfies_event_predicates.
+
+(* ... and a whole history: the model's observation of ANY history passes the history predicate (every moment under
+   the modes asked for at that moment, and the no-memory clause), so on the hist stream "no mismatch" implies "no
+   violation" and the predicate raises no false alarm on an implementation the model describes *)
+Theorem C13_hist_model_no_violation : forall (u : uni) (seg : list Z -> list (list Z)) (h : list hstep),
+  (forall r, seg [r] = [[r]]) -> oracle_ok u ->
+  hist_violation u (model_obs u seg modes0 h) = false.
+Proof. exact hist_model_no_violation. Qed.
+Print Assumptions C13_hist_model_no_violation.
+
 (* ---------- non-vacuity ---------- *)
 Example C13_ex_oracles : oracle_ok ascii_uni /\ (forall r, rune_seg [r] = [[r]]).
 Proof. exact (conj ascii_oracle_ok (fun r => eq_refl)). Qed.
@@ -298,4 +414,20 @@ Example C13_ex_child :
   parse_bytes cleanup = [ICsi [63] [[1049]; [1]; [1000]; [2004]] 108; IEof] /\
   listed 2004 [[1049]; [1]; [1000]; [2004]] = true /\ listed 1 [[1049]; [1]; [1000]; [2004]] = true /\
   Forall params_ok (parse_bytes (setup ++ cleanup)).
+Proof. vm_compute. repeat split; try reflexivity. repeat constructor; discriminate. Qed.
+
+(* a history on one emulator: the child enables bracketed paste, a paste is forwarded, the child disables it, a second
+   paste is forwarded (only the pasted key is written), RIS, Up in the CSI form; the predicate accepts the model's
+   observation and rejects an emulator that remembers the first paste (ESC [ 201 ~ written with 2004 off) *)
+Example C13_ex_history :
+  let on := parse_bytes [27; 91; 63; 50; 48; 48; 52; 104] in
+  let off := parse_bytes [27; 91; 63; 50; 48; 48; 52; 108] in
+  let x := TKey (mkKey [120] 120 0 0 0 3) in
+  let h := [SOut on; SEv TPasteStart; SEv x; SEv TPasteEnd; SOut off; SEv TPasteStart; SEv x; SEv TPasteEnd] in
+  hist_run ascii_uni modes0 h = Some ([paste_start_seq; [120]; paste_end_seq; []; [120]; []], modes0) /\
+  Forall params_ok (child_output h) /\
+  hist_violation ascii_uni (model_obs ascii_uni rune_seg modes0 h) = false /\
+  hist_violation ascii_uni [OOut [QSet [2004]] []; OEv TPasteEnd false paste_end_seq (Some [HPasteEnd]);
+                            OOut [QReset [2004]] []; OEv TPasteEnd false paste_end_seq (Some [HPasteEnd])] = true /\
+  relevant_eqb TPasteEnd modes0 (apply_ops [OpSet 1; OpSet 1000]) = true.
 Proof. vm_compute. repeat split; try reflexivity. repeat constructor; discriminate. Qed.
